@@ -6,6 +6,7 @@ P=$1; ID=$2; TIER=${3:-quick}; SEED=${4:-1}
 D=/tmp/seedchk.$$
 /verif/tools/scratch_copy.sh $D > /dev/null || exit 2
 trap "git -C /repo worktree remove --force $D/repo; rm -rf $D" EXIT
-git -C $D/repo apply $P || { echo "patch does not apply"; exit 2; }
+# a stored change was written against an earlier HEAD: fall back to a three-way merge when later fix commits moved its context
+git -C $D/repo apply $P 2>/dev/null || git -C $D/repo apply --3way $P >/dev/null 2>&1 || { echo "patch does not apply"; exit 2; }
 cd $D/verif && VERIF_SEED=$SEED ./check $ID --tier $TIER | grep -v "^  check" | cut -c1-400 | head -12
 echo "check-exit=${PIPESTATUS[0]}"
